@@ -24,7 +24,7 @@ pub fn kestrel_bin_checked() -> PathBuf {
 /// change-pass, and an unrelated variable whose value is not UTF-8. On a correct tool nothing changes;
 /// every lane of every property thereby also checks that nothing does. KMON_AMBIENT=never|always overrides.
 static AMBIENT_TURN: AtomicU64 = AtomicU64::new(0);
-static AMBIENT_APPLIED: [AtomicU64; 3] = [AtomicU64::new(0), AtomicU64::new(0), AtomicU64::new(0)];
+static AMBIENT_APPLIED: [AtomicU64; 4] = [AtomicU64::new(0), AtomicU64::new(0), AtomicU64::new(0), AtomicU64::new(0)];
 static AMBIENT_PLAIN: AtomicU64 = AtomicU64::new(0);
 
 pub fn ambient_stats() -> serde_json::Value {
@@ -33,6 +33,7 @@ pub fn ambient_stats() -> serde_json::Value {
         "runs_with_a_decoy_KESTREL_KEYRING_next_to_-k": AMBIENT_APPLIED[0].load(Ordering::SeqCst),
         "runs_with_a_decoy_KESTREL_NEW_PASSWORD": AMBIENT_APPLIED[1].load(Ordering::SeqCst),
         "runs_with_an_unrelated_non_UTF-8_variable": AMBIENT_APPLIED[2].load(Ordering::SeqCst),
+        "runs_with_stale_sibling_files_(.tmp,.part)_next_to_the_-o_path": AMBIENT_APPLIED[3].load(Ordering::SeqCst),
     })
 }
 
@@ -224,6 +225,31 @@ impl Cmd {
             if !arg("change-pass") && !has("KESTREL_NEW_PASSWORD") {
                 c.env("KESTREL_NEW_PASSWORD", "kmon decoy new password");
                 AMBIENT_APPLIED[1].fetch_add(1, Ordering::SeqCst);
+            }
+            // stale sibling files next to the -o path, as an interrupted earlier run of some tool could leave them
+            if let Some(i) = self.args.iter().position(|x| x == "-o" || x == "--output") {
+                if let Some(o) = self.args.get(i + 1).and_then(|x| x.to_str()) {
+                    let plain_name = !o.is_empty() && !o.contains('/') && !o.starts_with('-') && !o.starts_with('.') && o.len() < 200;
+                    if plain_name && self.cwd.starts_with(format!("{}/work", crate::ctx::verif_root())) {
+                        static STALE: std::sync::OnceLock<String> = std::sync::OnceLock::new();
+                        let stale = STALE.get_or_init(|| {
+                            let mut rng = crate::util::Rng::new(0x57a1e);
+                            let id = Ident::new("stale", "stale", &mut rng);
+                            let mut t = String::new();
+                            while t.len() < 200_000 {
+                                t.push_str(&format!("[Key]\nName = stale-{}\nPublicKey = {}\nPrivateKey = {}\n\n", t.len(), crate::refspec::encode_pk(&crate::refspec::pubkey_of(&rng.arr32())), id.locked));
+                            }
+                            t
+                        });
+                        for suffix in [".tmp", ".part"] {
+                            let p = self.cwd.join(format!("{}{}", o, suffix));
+                            if !p.exists() {
+                                let _ = std::fs::write(&p, stale);
+                            }
+                        }
+                        AMBIENT_APPLIED[3].fetch_add(1, Ordering::SeqCst);
+                    }
+                }
             }
             if !has("KMON_UNRELATED") {
                 use std::os::unix::ffi::OsStringExt;
